@@ -117,6 +117,14 @@ func verifOps(L, C int, thorough bool) []verifOp {
 		if L > C+8 {
 			return ops
 		}
+		if L != C+8 {
+			// heavy lengths other than the full chunk: a minimal set
+			ops = append(ops, verifOp{kind: verifOpAddrByte, mu: verifMut{0, 0x01}, nsf: 1}, verifOp{kind: verifOpAddrShape, mu: verifMut{pos: 0}, nsf: 1})
+			for i, p := range []int{0, 7, 8, L - 33, L - 32, L - 1} {
+				ops = append(ops, verifOp{kind: verifOpPayload, mu: verifMut{p, alt(i)}, nsf: 1})
+			}
+			return ops
+		}
 		for i, k := range []int{0, 15, 16, 31} {
 			ops = append(ops, verifOp{kind: verifOpAddrByte, mu: verifMut{k, alt(i)}, nsf: 1})
 		}
@@ -306,7 +314,7 @@ func TestVerifC04(t *testing.T) {
 		}(),
 		"address_mutation": "each of the 32 bytes xor 0x01 and xor 0x80; truncated to 31; extended to 33; empty",
 		"payload_mutation": "xor 0x01 and xor 0x80 at every position of the span, of the first two and of the last two sections (= every position at the scaled geometry); one position in every interior section",
-		"heavy_lengths":    "payload > 4096 bytes (real geometry only; one Valid = one 256 KiB BMT). quick: span_fill[0..1] for Valid/New/NewWithDataSpan; under span_fill[0]: address bytes {0,15,16,31} + 3 wrong-length addresses, payload positions = all 8 span bytes, data offsets {0,31,32,63,64}, {len-65,len-64,len-33,len-32,len-1} and one byte in every 1024th interior section, one xor value each (alternating 0x01/0x80). thorough: full alphabet, one byte in every 256th interior section under all span_fill, and for len = C+8 and 8+C/2+1 one byte in every interior section under span_fill[0]",
+		"heavy_lengths":    "payload > 4096 bytes (real geometry only; one Valid = one 256 KiB BMT). quick: span_fill[0..1] for Valid/New/NewWithDataSpan; under span_fill[0], for the full chunk (len C+8): address bytes {0,15,16,31} + 3 wrong-length addresses, payload positions = all 8 span bytes, data offsets {0,31,32,63,64}, {len-65,len-64,len-33,len-32,len-1} and one byte in every 1024th interior section; for the other heavy lengths (8+C/2, C+7): address byte 0, 31-byte address, payload positions {0,7,8,len-33,len-32,len-1}; one xor value each (alternating 0x01/0x80). thorough: full alphabet, one byte in every 256th interior section under all span_fill, and for len = C+8 and 8+C/2+1 one byte in every interior section under span_fill[0]",
 		"tier_thorough":    thorough,
 		"constructors":     "New(data) when span=len, NewWithDataSpan(payload) for every span",
 		"out_of_range":     "len<8: address = BMT(span zero-extended, no data); len>C+8: address = BMT(span, first C data bytes)",
